@@ -111,6 +111,9 @@ func ruleBounds(c *Ctx, fns []string, tier string) *RuleResult {
 			P.Budget, P.DProve, P.DElim = 200000, 8, 8
 		}
 		for _, ob := range boundsObligations(P, fn) {
+			if src := c.srcAt(ob.in.Pos()); src != "" {
+				ob.desc = src
+			}
 			okAll := true
 			var failed []string
 			for k, g := range ob.goals {
